@@ -533,6 +533,40 @@ theorem build_mul {B : Basis} (p : Option String) {b : SymExpr} (hr : RegLoc B b
     · intro S ρ; simp [evalSym, symFn2, hop]
 
 
+theorem takeWhile_of_all {β : Type} (p : β → Bool) : ∀ l : List β, (∀ a ∈ l, p a = true) → l.takeWhile p = l := by
+  intro l
+  induction l with
+  | nil => intro _; rfl
+  | cons a t ih =>
+    intro h
+    have ha : p a = true := h a (by simp)
+    simp [ha, ih (fun b hb => h b (by simp [hb]))]
+
+theorem dropWhile_of_all {β : Type} (p : β → Bool) : ∀ l : List β, (∀ a ∈ l, p a = true) → l.dropWhile p = [] := by
+  intro l
+  induction l with
+  | nil => intro _; rfl
+  | cons a t ih =>
+    intro h
+    have ha : p a = true := h a (by simp)
+    simp [ha, ih (fun b hb => h b (by simp [hb]))]
+
+set_option exponentiation.threshold 1100 in
+/-- the literal in `floatOverflowBound` is `2^1024 − 2^970` -/
+theorem floatOverflowBound_eq : floatOverflowBound = 2 ^ 1024 - 2 ^ 970 := by
+  decide
+
+/-- an `int` literal parses as its digits, exponent 0, nothing left over -/
+theorem parseUnsigned_of_isIntLit (cs : List Char) (h : isIntLit cs = true) :
+    parseUnsigned cs = some (natOfDigits cs, 0, []) := by
+  unfold isIntLit at h
+  simp only [Bool.and_eq_true, Bool.not_eq_true', List.all_eq_true] at h
+  obtain ⟨hne, hall⟩ := h
+  have hd : cs.dropWhile Char.isDigit = [] := dropWhile_of_all _ cs hall
+  have ht : cs.takeWhile Char.isDigit = cs := takeWhile_of_all _ cs hall
+  unfold parseUnsigned
+  simp [ht, hd, hne]
+
 theorem isFloat_of_isOne (s : String) (h : pyFloatIsOne s = true) : isFloatLabel s = true := by
   unfold pyFloatIsOne at h
   unfold isFloatLabel isFloatChars
@@ -544,7 +578,24 @@ theorem isFloat_of_isOne (s : String) (h : pyFloatIsOne s = true) : isFloatLabel
   | some t =>
     obtain ⟨m, e, rest⟩ := t
     cases rest with
-    | nil => rfl
+    | nil =>
+      simp only [hp, Bool.and_eq_true, Bool.not_eq_true'] at h
+      -- an integer literal equal to one does not overflow
+      simp only [Bool.not_eq_true']
+      unfold intLitOverflows
+      cases hi : isIntLit r with
+      | false => simp
+      | true =>
+        have := parseUnsigned_of_isIntLit r hi
+        rw [hp] at this
+        simp only [Option.some.injEq, Prod.mk.injEq] at this
+        obtain ⟨hm, he, -⟩ := this
+        have h1 := h.2
+        subst he
+        simp [isOneVal] at h1
+        simp only [Bool.true_and, decide_eq_false_iff_not, Nat.not_le]
+        rw [← hm, h1]
+        decide
     | cons c cs => simp [hp] at h
 /-! ### the main induction -/
 
